@@ -18,8 +18,8 @@
  *        forked child and answers "abort" when the child died of SIGABRT.
  *     base == 0 && !trailing goes through PARSENUM(...), everything else through PARSENUM_EX(...).
  *     The string is passed in a heap block of exactly strlen+1 bytes.
- *   hs_parse <hex>   -> "ok <n>" | "fail"
- *   hs_fmt <n>       -> the string as hex
+ *   hs_parse <hex>   -> "ok <n>" | "fail"            (the same answer again as L2 part:
+ *   hs_fmt <n>       -> the string as hex               the model prints spec | model)
  */
 #include <errno.h>
 #include <inttypes.h>
@@ -315,9 +315,9 @@ main(void)
 			s = cstring(hc_tok[1]);
 			n = 0x5a5a5a5a5a5a5a5aULL;
 			if (humansize_parse(s, &n) == 0)
-				printf("ok %" PRIu64, n);
+				printf("ok %" PRIu64 " | ok %" PRIu64, n, n);
 			else
-				fputs("fail", stdout);
+				fputs("fail | fail", stdout);
 			HC_END();
 			free(s);
 		} else if (hc_is("hs_fmt", 1)) {
@@ -325,8 +325,11 @@ main(void)
 			s = humansize(n);
 			if (s == NULL)
 				fputs("null", stdout);
-			else
+			else {
 				hc_puthex((const uint8_t *)s, strlen(s));
+				fputs(" | ", stdout);
+				hc_puthex((const uint8_t *)s, strlen(s));
+			}
 			HC_END();
 			free(s);
 		} else {
